@@ -7,6 +7,20 @@ HERE = os.path.dirname(os.path.dirname(os.path.abspath(__file__)))
 ALL = ["C%02d" % i for i in range(1, 21)]
 
 CLAIMED = {
+    "C10": dict(
+        category="model_checking",
+        text=("SummaryFile.tla (over EclFileFormat): the legacy reader's single-value offset arithmetic is transcribed and "
+              "checked by TLC against the published REAL-array layout for every index 0..12000 (formatted and "
+              "unformatted); runs, base runs and the time axis / report-step positions a reader must present are a small "
+              "state machine.  Files written with the writer's components for 1..4500 vectors x formatted x unified, with "
+              "and without a base run (same or different vector sets), are read by ESmry (selective and whole-file), by "
+              "make_esmry_file + ExtESmry; TLC validates every read event (time axis, report-step positions, vector "
+              "counts) and requires the value/unit/start-date/key booleans."),
+        design_ref="DESIGN.md section 5, C10",
+        note=("Trusted: TLC; value identity i + 5000 t computed in the harness; files are produced with "
+              "OutputStream::SummarySpecification/createSummaryFile as out::Summary does (vector evaluation is C09)."),
+        technique="TLA+ layout/offset model checked with TLC + trace validation of files written and read by the real classes",
+    ),
     "C13": dict(
         category="model_checking",
         text=("Grid.tla models a grid object as a state machine with index maps and geometry in closed form; TLC checks "
